@@ -872,6 +872,8 @@ def first_bad_run(case, obs):
 
 def classify(case, obs):
     if case.get("kind") == "hist":
+        if obs.get("error") and not obs.get("runs"):
+            return "raises", dict(error=obs.get("error"), stage=obs.get("stage"), expected_calls="?")
         fb = first_bad_run(case, obs)
         if fb is None:
             return "history_unclassified", {}
@@ -940,25 +942,31 @@ def ops_before_run(case, k):
 # ------------------------------------------------------------------------------------------ Coq emission
 
 
-def cval(v) -> str:
+def cval(v, observed=False) -> str:
     if isinstance(v, bool):
         return f"VBool {core.cbool(v)}"
     if isinstance(v, int):
         return f"VInt {core.cz(v)}"
-    if isinstance(v, str):
+    if isinstance(v, str) and (not observed or all(32 <= ord(ch) < 127 for ch in v)):
         return f"VStr {core.cstr(v)}"
     if v is None:
         return "VNone"
     if isinstance(v, (list, tuple)):
-        return "VList " + (core.clist(f"({cval(x)})" for x in v) if v else "nil")
+        return "VList " + (core.clist(f"({cval(x, observed)})" for x in v) if v else "nil")
     if isinstance(v, dict) and all(isinstance(k, str) for k in v):
-        return "VDict " + (core.clist(f"(VList [VStr {core.cstr(k)}; {cval(v[k])}])" for k in sorted(v)) if v else "nil")
+        return "VDict " + (core.clist(f"(VList [VStr {core.cstr(k)}; {cval(v[k], observed)}])" for k in sorted(v))
+                           if v else "nil")
+    if observed:
+        # something the generator never configures (a float, a repr of an object): it can only differ from the
+        # configured value; emitted as a marked value so that Coq reports the case instead of the harness failing
+        txt = "".join(ch if 32 <= ord(ch) < 127 else "?" for ch in repr(v))[:80]
+        return f"VList [VStr {core.cstr('<outside the modelled domain>')}; VStr {core.cstr(type(v).__name__ + ' ' + txt)}]"
     raise ValueError(f"value outside the modelled domain: {v!r}")
 
 
-def ckwargs(d) -> str:
+def ckwargs(d, observed=False) -> str:
     d = d or {}
-    return core.clist(f"({core.cstr(k)}, {cval(d[k])})" for k in sorted(d))
+    return core.clist(f"({core.cstr(str(k))}, {cval(d[k], observed)})" for k in sorted(d, key=str))
 
 
 def cmodel(m) -> str:
@@ -1008,7 +1016,7 @@ COPY_CTOR = dict(deep="CDeep", processor="CProcessor", pickle="CPickle")
 def coutcome(obs) -> str:
     if obs.get("error") or "trace" not in obs:
         return f"(Failed {core.cstr(str(obs.get('error') or 'Other'))})"
-    tr = core.clist(f"({core.cnat(s)}, {core.cstr(n)}, {ckwargs(kw)})" for s, n, kw in obs["trace"])
+    tr = core.clist(f"({core.cnat(s)}, {core.cstr(n)}, {ckwargs(kw, observed=True)})" for s, n, kw in obs["trace"])
     if obs.get("nodes") is None:
         nodes = "None"
     else:
